@@ -37,6 +37,8 @@ pub struct FaultPlan {
     /// failing FLUSH operations report ErrorKind::Interrupted (never used for writes: write_all
     /// retries those for ever, legitimately)
     pub interrupted_flush: bool,
+    /// which io::ErrorKind the injected failure carries (0 = Other; see `injected`)
+    pub error_kind: u8,
 }
 
 #[derive(Default)]
@@ -72,7 +74,7 @@ impl Dest {
     }
     pub fn with_fault(at: usize, persistent: bool) -> Dest {
         let d = Dest::default();
-        d.0.borrow_mut().fault = FaultPlan { at: Some(at), persistent, interrupted_flush: false };
+        d.0.borrow_mut().fault = FaultPlan { at: Some(at), persistent, interrupted_flush: false, error_kind: 0 };
         d
     }
     pub fn set_epoch(&self, e: usize) {
@@ -117,9 +119,22 @@ impl DestState {
     }
 }
 
-fn injected() -> io::Error {
+fn injected_kind(k: u8) -> io::Error {
     // never ErrorKind::Interrupted: write_all legitimately retries that one
-    io::Error::new(io::ErrorKind::Other, "verif: injected I/O fault")
+    let kind = match k % 7 {
+        0 => io::ErrorKind::Other,
+        1 => io::ErrorKind::WouldBlock,
+        2 => io::ErrorKind::TimedOut,
+        3 => io::ErrorKind::BrokenPipe,
+        4 => io::ErrorKind::PermissionDenied,
+        5 => io::ErrorKind::WriteZero,
+        _ => io::ErrorKind::UnexpectedEof,
+    };
+    io::Error::new(kind, "verif: injected I/O fault")
+}
+
+fn injected() -> io::Error {
+    injected_kind(0)
 }
 
 impl Write for Dest {
@@ -128,7 +143,7 @@ impl Write for Dest {
         let e = s.epoch;
         if s.should_fail() {
             s.ops.push((e, Op::Failed('w')));
-            return Err(injected());
+            return Err(injected_kind(s.fault.error_kind));
         }
         let n = if b.is_empty() {
             0
@@ -160,7 +175,7 @@ impl Write for Dest {
             if s.fault.interrupted_flush {
                 return Err(io::Error::new(io::ErrorKind::Interrupted, "verif: injected interrupted flush"));
             }
-            return Err(injected());
+            return Err(injected_kind(s.fault.error_kind));
         }
         s.ops.push((e, Op::Flush));
         Ok(())
@@ -173,7 +188,7 @@ impl Seek for Dest {
         let e = s.epoch;
         if s.should_fail() {
             s.ops.push((e, Op::Failed('s')));
-            return Err(injected());
+            return Err(injected_kind(s.fault.error_kind));
         }
         let np = match p {
             SeekFrom::Start(x) => x as i64,
